@@ -396,6 +396,19 @@ func init() {
 					want = lint.Error
 				}
 				c19Lint(c, g, spec.DER(), "e_subject_contains_reserved_ip", want, "common name "+ip.String())
+				// the same address in every textual form the standard parser reads (expanded groups, upper case, an
+				// embedded dotted quad - up to 45 characters -, IPv4-mapped spellings): one address, one verdict
+				forms := c19TextForms(ip)
+				for k := 0; k < 2 && len(forms) > 0; k++ {
+					f := forms[rng.Intn(len(forms))]
+					if p := net.ParseIP(f); p == nil || !p.Equal(ip) {
+						continue
+					}
+					sf := gen.TLSLeaf(nb, "www.example.com")
+					sf.Subject = gen.Name(gen.A(gen.OIDC, "US"), gen.A(gen.OIDO, "Example Org"), gen.A(gen.OIDCN, f))
+					c19Lint(c, g, sf.DER(), "e_subject_contains_reserved_ip", want, fmt.Sprintf("common name %q (a textual form of %s)", f, ip))
+					c.R.Count("common_name_text_forms", 1)
+				}
 				if rng.Intn(3) == 0 {
 					// several commonName attributes. Which of them "the" common name is, the property does not say; it is
 					// judged only where every reading agrees: the LAST one (the one the parser exposes) reserved => a
@@ -569,4 +582,47 @@ func c19Lint(c *mon.Ctx, g lint.Registry, derBytes []byte, name string, want lin
 	if c.R.Counters["evaluations"]%5003 == 0 {
 		c.R.Sample(6, map[string]any{"lint": name, "input": what, "status": r.Status.String()})
 	}
+}
+
+// c19TextForms: spellings of one address that net.ParseIP reads.
+func c19TextForms(ip net.IP) []string {
+	var out []string
+	b16 := ip.To16()
+	if b16 == nil {
+		return nil
+	}
+	groups := func(upper, pad bool, quad bool) string {
+		var parts []string
+		n := 8
+		if quad {
+			n = 6
+		}
+		for i := 0; i < n; i++ {
+			v := int(b16[2*i])<<8 | int(b16[2*i+1])
+			f := "%x"
+			if pad {
+				f = "%04x"
+			}
+			if upper {
+				f = strings.ToUpper(f[:len(f)-1]) + "X"
+				if pad {
+					f = "%04X"
+				} else {
+					f = "%X"
+				}
+			}
+			parts = append(parts, fmt.Sprintf(f, v))
+		}
+		s := strings.Join(parts, ":")
+		if quad {
+			s += fmt.Sprintf(":%d.%d.%d.%d", b16[12], b16[13], b16[14], b16[15])
+		}
+		return s
+	}
+	out = append(out, groups(false, true, false), groups(true, true, false), groups(false, false, false), groups(false, true, true), groups(true, true, true), groups(false, false, true))
+	if v4 := ip.To4(); v4 != nil {
+		q := fmt.Sprintf("%d.%d.%d.%d", v4[0], v4[1], v4[2], v4[3])
+		out = append(out, "::ffff:"+q, "::FFFF:"+q, "0:0:0:0:0:ffff:"+q, fmt.Sprintf("::ffff:%02x%02x:%02x%02x", v4[0], v4[1], v4[2], v4[3]))
+	}
+	return out
 }
